@@ -38,8 +38,9 @@ def teams(tier):
                 for leave in (None, "2025-01-06-11:00", "2025-01-06-13:00"):
                     for pre in (0, 20, 90):
                         yield {"kind": "team", "L": L, "alap": alap, "m": m, "leave": leave, "pre": pre}
-                for lim in ("1h", "2h", "3h"):
-                    yield {"kind": "teamlim", "L": L, "alap": alap, "m": m, "lim": lim}
+                for lim in ("1h", "2h", "3h", "3.5h"):
+                    for where in ("task", "group", "member"):
+                        yield {"kind": "teamlim", "L": L, "alap": alap, "m": m, "lim": lim, "where": where}
                 for k in range(0, 5):
                     for eff2 in (1.0, 0.5):
                         yield {"kind": "alt", "L": L, "alap": alap, "m": m, "k": k, "eff2": eff2}
@@ -98,7 +99,15 @@ def to_spec(it):
         tasks.append(t)
         base.update(resources=[{"id": "r1", "eff": it["eff"]}], tasks=tasks)
     elif k == "teamlim":
-        base.update(resources=[{"id": "r1"}, {"id": "r2"}], tasks=[{"id": "x", "effort": it["m"], "alloc": ["r1", "r2"], "limits": {"dailymax": it["lim"]}}])
+        x = {"id": "x", "effort": it["m"], "alloc": ["r1", "r2"]}
+        rs = [{"id": "r1"}, {"id": "r2"}]
+        if it["where"] == "task":
+            x["limits"] = {"dailymax": it["lim"]}
+        elif it["where"] == "group":
+            rs = [{"id": "grp", "limits": {"dailymax": it["lim"]}, "children": rs}]
+        else:
+            rs[1]["limits"] = {"dailymax": it["lim"]}
+        base.update(resources=rs, tasks=[x])
     elif k == "team":
         r2 = {"id": "r2"}
         if it["leave"]:
